@@ -1,6 +1,6 @@
 /-
   Helper lemmas for the C14 theorems (`Props/C14.lean`) over the model of `validate.rs` (`Validate.lean`):
-  `removeItem`, the acceptance characterisation of `compareTraitItems` / `compareInherentItems`,
+  `removeItem`, the acceptance characterisation of `compareTraitItemsLoop` / `compareInherentItemsLoop`,
   single-defect mutations, `firstError`. Core-only.
 -/
 import DisjointImpls.Validate
@@ -137,10 +137,10 @@ def TraitAccept (ts second : List ItemSig) : Prop :=
   (∀ s ∈ second, ∃ t ∈ ts, t.kind = s.kind ∧ t.ident = s.ident) ∧
   (∀ t ∈ ts, ∀ s ∈ second, t.kind = .const → s.kind = .const → s.ident = t.ident → t.arity = s.arity)
 
-theorem compareTraitItems_ok_iff : ∀ (ts second : List ItemSig), cleanItems ts = true → cleanItems second = true →
-    (compareTraitItems ts second = .ok () ↔ TraitAccept ts second)
+theorem compareTraitItemsLoop_ok_iff : ∀ (ts second : List ItemSig), cleanItems ts = true → cleanItems second = true →
+    (compareTraitItemsLoop ts second = .ok () ↔ TraitAccept ts second)
   | [], second, _, hs => by
-      rw [compareTraitItems, if_neg (by simp [clean_no_other hs])]
+      rw [compareTraitItemsLoop, if_neg (by simp [clean_no_other hs])]
       cases second with
       | nil => simp [TraitAccept]
       | cons x xs =>
@@ -150,7 +150,7 @@ theorem compareTraitItems_ok_iff : ∀ (ts second : List ItemSig), cleanItems ts
         cases ht
   | t :: ts, second, hts, hs => by
       obtain ⟨hto, htk, hts'⟩ := cleanItems_cons.1 hts
-      rw [compareTraitItems, if_neg (by simp [clean_no_other hs]), if_neg hto]
+      rw [compareTraitItemsLoop, if_neg (by simp [clean_no_other hs]), if_neg hto]
       cases hr : removeItem t.kind t.ident second with
       | some p =>
         obtain ⟨s, rest⟩ := p
@@ -173,7 +173,7 @@ theorem compareTraitItems_ok_iff : ∀ (ts second : List ItemSig), cleanItems ts
           simp only [reduceCtorEq, false_iff]
           intro h
           exact har.2 (h.2.2 t (by simp) s ((hmem s).2 (Or.inl rfl)) har.1 (hst.1.trans har.1) hst.2)
-        · rw [if_neg har, compareTraitItems_ok_iff ts (l1 ++ l2) hts' hcr]
+        · rw [if_neg har, compareTraitItemsLoop_ok_iff ts (l1 ++ l2) hts' hcr]
           constructor
           · rintro ⟨h1, h2, h3⟩
             refine ⟨?_, ?_, ?_⟩
@@ -224,7 +224,7 @@ theorem compareTraitItems_ok_iff : ∀ (ts second : List ItemSig), cleanItems ts
         have hnone := removeItem_none.1 hr
         simp only
         by_cases hd : t.hasDefault = true
-        · rw [if_pos hd, compareTraitItems_ok_iff ts second hts' hs]
+        · rw [if_pos hd, compareTraitItemsLoop_ok_iff ts second hts' hs]
           constructor
           · rintro ⟨h1, h2, h3⟩
             refine ⟨?_, ?_, ?_⟩
@@ -278,31 +278,31 @@ theorem no_other_sub {xs ys : List ItemSig} (h : ∀ y ∈ ys, y ∈ xs)
   exact fun y hy => hx y (h y hy)
 
 /-- an accepted run never sees an unsupported item -/
-theorem ok_no_other : ∀ (ts second : List ItemSig), compareTraitItems ts second = .ok () →
+theorem ok_no_other : ∀ (ts second : List ItemSig), compareTraitItemsLoop ts second = .ok () →
     second.any (fun i => i.kind = .other) = false
   | [], second, h => by
-      rw [compareTraitItems] at h
+      rw [compareTraitItemsLoop] at h
       by_cases ho : second.any (fun i => i.kind = .other) = true
       · rw [if_pos ho] at h; cases h
       · simpa using ho
   | t :: ts, second, h => by
-      rw [compareTraitItems] at h
+      rw [compareTraitItemsLoop] at h
       by_cases ho : second.any (fun i => i.kind = .other) = true
       · rw [if_pos ho] at h; cases h
       · simpa using ho
 
 /-- removing the item a required trait item asks for: `Missing in one of the impls` -/
-theorem compareTraitItems_missing : ∀ (ts second : List ItemSig) (t : ItemSig), cleanItems ts = true →
-    compareTraitItems ts second = .ok () → t ∈ ts → t.hasDefault = false →
-    compareTraitItems ts (dropItem t.kind t.ident second) = .error .missing
+theorem compareTraitItemsLoop_missing : ∀ (ts second : List ItemSig) (t : ItemSig), cleanItems ts = true →
+    compareTraitItemsLoop ts second = .ok () → t ∈ ts → t.hasDefault = false →
+    compareTraitItemsLoop ts (dropItem t.kind t.ident second) = .error .missing
   | [], _, _, _, _, ht, _ => by cases ht
   | t0 :: ts, second, t, hts, hok, ht, hd => by
       obtain ⟨_, htk, hts'⟩ := cleanItems_cons.1 hts
       have hno := ok_no_other _ _ hok
       have hno' : (dropItem t.kind t.ident second).any (fun i => i.kind = .other) = false :=
         no_other_sub (fun y hy => (mem_dropItem.1 hy).1) hno
-      rw [compareTraitItems, if_neg (by simp [hno])] at hok
-      rw [compareTraitItems, if_neg (by simp [hno'])]
+      rw [compareTraitItemsLoop, if_neg (by simp [hno])] at hok
+      rw [compareTraitItemsLoop, if_neg (by simp [hno'])]
       by_cases hto : t0.kind = .other
       · rw [if_pos hto] at hok; cases hok
       rw [if_neg hto] at hok ⊢
@@ -329,7 +329,7 @@ theorem compareTraitItems_missing : ∀ (ts second : List ItemSig) (t : ItemSig)
           by_cases har : t0.kind = .const ∧ t0.arity ≠ s.arity
           · rw [if_pos har] at hok; cases hok
           · rw [if_neg har] at hok ⊢
-            exact compareTraitItems_missing ts _ t hts' hok ht hd
+            exact compareTraitItemsLoop_missing ts _ t hts' hok ht hd
         | none =>
           rw [hr] at hok
           have : removeItem t0.kind t0.ident (dropItem t.kind t.ident second) = none :=
@@ -338,7 +338,7 @@ theorem compareTraitItems_missing : ∀ (ts second : List ItemSig) (t : ItemSig)
           simp only at hok ⊢
           by_cases hd0 : t0.hasDefault = true
           · rw [if_pos hd0] at hok ⊢
-            exact compareTraitItems_missing ts _ t hts' hok ht hd
+            exact compareTraitItemsLoop_missing ts _ t hts' hok ht hd
           · rw [if_neg hd0] at hok; cases hok
 
 /-- `removeItem` does not see an inserted item of another name -/
@@ -379,13 +379,13 @@ theorem removeItem_insert_some {k : ItemKind} {n : String} :
           rw [List.cons_append, removeItem, if_neg hi, h' x hx]; rfl
 
 /-- an item the trait does not declare, inserted anywhere: `Not found in trait definition` -/
-theorem compareTraitItems_extra : ∀ (ts l1 l2 : List ItemSig) (x : ItemSig),
-    compareTraitItems ts (l1 ++ l2) = .ok () → x.kind ≠ .other →
+theorem compareTraitItemsLoop_extra : ∀ (ts l1 l2 : List ItemSig) (x : ItemSig),
+    compareTraitItemsLoop ts (l1 ++ l2) = .ok () → x.kind ≠ .other →
     (∀ t ∈ ts, ¬ (t.kind = x.kind ∧ t.ident = x.ident)) →
-    compareTraitItems ts (l1 ++ x :: l2) = .error .notInTrait
+    compareTraitItemsLoop ts (l1 ++ x :: l2) = .error .notInTrait
   | [], l1, l2, x, hok, hxo, _ => by
       have hno := ok_no_other _ _ hok
-      rw [compareTraitItems, if_neg (by simp [hno])] at hok
+      rw [compareTraitItemsLoop, if_neg (by simp [hno])] at hok
       have hem : l1 ++ l2 = [] := by
         by_cases he : (l1 ++ l2).isEmpty = true
         · simpa using he
@@ -393,7 +393,7 @@ theorem compareTraitItems_extra : ∀ (ts l1 l2 : List ItemSig) (x : ItemSig),
       have h1 : l1 = [] := (List.append_eq_nil_iff.1 hem).1
       have h2 : l2 = [] := (List.append_eq_nil_iff.1 hem).2
       subst h1 h2
-      rw [compareTraitItems]
+      rw [compareTraitItemsLoop]
       simp [hxo]
   | t :: ts, l1, l2, x, hok, hxo, hnt => by
       have hno := ok_no_other _ _ hok
@@ -403,8 +403,8 @@ theorem compareTraitItems_extra : ∀ (ts l1 l2 : List ItemSig) (x : ItemSig),
         · exact hno y (Or.inl hy)
         · rw [hy]; exact hxo
         · exact hno y (Or.inr hy)
-      rw [compareTraitItems, if_neg (by simp [hno])] at hok
-      rw [compareTraitItems, if_neg (by simp [hno'])]
+      rw [compareTraitItemsLoop, if_neg (by simp [hno])] at hok
+      rw [compareTraitItemsLoop, if_neg (by simp [hno'])]
       by_cases hto : t.kind = .other
       · rw [if_pos hto] at hok; cases hok
       rw [if_neg hto] at hok ⊢
@@ -421,14 +421,14 @@ theorem compareTraitItems_extra : ∀ (ts l1 l2 : List ItemSig) (x : ItemSig),
         by_cases har : t.kind = .const ∧ t.arity ≠ s.arity
         · rw [if_pos har] at hok; cases hok
         · rw [if_neg har] at hok ⊢
-          exact compareTraitItems_extra ts l1' l2' x hok hxo hnt'
+          exact compareTraitItemsLoop_extra ts l1' l2' x hok hxo hnt'
       | none =>
         rw [hr] at hok
         rw [removeItem_insert_none hx l1 l2 hr]
         simp only at hok ⊢
         by_cases hd : t.hasDefault = true
         · rw [if_pos hd] at hok ⊢
-          exact compareTraitItems_extra ts l1 l2 x hok hxo hnt'
+          exact compareTraitItemsLoop_extra ts l1 l2 x hok hxo hnt'
         · rw [if_neg hd] at hok; cases hok
 
 
@@ -439,11 +439,11 @@ theorem clean_dropItem {k : ItemKind} {x : String} {xs : List ItemSig} (h : clea
   exact List.Nodup.sublist (List.Sublist.map _ List.filter_sublist) h.2
 
 /-- omitting an item that has a trait default keeps the impl accepted -/
-theorem compareTraitItems_default_omitted (ts second : List ItemSig) (t : ItemSig) (hts : cleanItems ts = true)
-    (hs : cleanItems second = true) (hok : compareTraitItems ts second = .ok ()) (ht : t ∈ ts)
-    (hd : t.hasDefault = true) : compareTraitItems ts (dropItem t.kind t.ident second) = .ok () := by
-  rw [compareTraitItems_ok_iff ts _ hts (clean_dropItem hs)]
-  obtain ⟨h1, h2, h3⟩ := (compareTraitItems_ok_iff ts second hts hs).1 hok
+theorem compareTraitItemsLoop_default_omitted (ts second : List ItemSig) (t : ItemSig) (hts : cleanItems ts = true)
+    (hs : cleanItems second = true) (hok : compareTraitItemsLoop ts second = .ok ()) (ht : t ∈ ts)
+    (hd : t.hasDefault = true) : compareTraitItemsLoop ts (dropItem t.kind t.ident second) = .ok () := by
+  rw [compareTraitItemsLoop_ok_iff ts _ hts (clean_dropItem hs)]
+  obtain ⟨h1, h2, h3⟩ := (compareTraitItemsLoop_ok_iff ts second hts hs).1 hok
   refine ⟨?_, fun s hs' => h2 s (mem_dropItem.1 hs').1, fun t0 ht0 s hs' => h3 t0 ht0 s (mem_dropItem.1 hs').1⟩
   intro t0 ht0 hd0
   obtain ⟨s, hs', hm⟩ := h1 t0 ht0 hd0
@@ -465,15 +465,15 @@ def inhResult : Except Diag Unit → Except Diag Unit
   | .ok () => .ok ()
   | .error d => .error (inhDiag d)
 
-theorem compareInherentItems_eq : ∀ (fs second : List ItemSig),
-    compareInherentItems fs second = inhResult (compareTraitItems (fs.map ItemSig.strict) second)
+theorem compareInherentItemsLoop_eq : ∀ (fs second : List ItemSig),
+    compareInherentItemsLoop fs second = inhResult (compareTraitItemsLoop (fs.map ItemSig.strict) second)
   | [], second => by
-      rw [compareInherentItems, List.map_nil, compareTraitItems]
+      rw [compareInherentItemsLoop, List.map_nil, compareTraitItemsLoop]
       split
       · rfl
       · split <;> rfl
   | f :: fs, second => by
-      rw [compareInherentItems, List.map_cons, compareTraitItems]
+      rw [compareInherentItemsLoop, List.map_cons, compareTraitItemsLoop]
       have hk : f.strict.kind = f.kind := rfl
       have hi : f.strict.ident = f.ident := rfl
       have ha : f.strict.arity = f.arity := rfl
@@ -490,7 +490,7 @@ theorem compareInherentItems_eq : ∀ (fs second : List ItemSig),
             simp only
             split
             · rfl
-            · exact compareInherentItems_eq fs rest
+            · exact compareInherentItemsLoop_eq fs rest
 
 theorem clean_strict {fs : List ItemSig} : cleanItems (fs.map ItemSig.strict) = cleanItems fs := by
   have h1 : (fs.map ItemSig.strict).map ItemSig.key = fs.map ItemSig.key := by
@@ -509,10 +509,10 @@ def InherentAccept (fs second : List ItemSig) : Prop :=
   (∀ s ∈ second, ∃ f ∈ fs, f.kind = s.kind ∧ f.ident = s.ident) ∧
   (∀ f ∈ fs, ∀ s ∈ second, f.kind = .const → s.kind = .const → s.ident = f.ident → f.arity = s.arity)
 
-theorem compareInherentItems_ok_iff (fs second : List ItemSig) (hf : cleanItems fs = true)
-    (hs : cleanItems second = true) : compareInherentItems fs second = .ok () ↔ InherentAccept fs second := by
-  rw [compareInherentItems_eq, inhResult_ok,
-    compareTraitItems_ok_iff _ _ (by rw [clean_strict]; exact hf) hs]
+theorem compareInherentItemsLoop_ok_iff (fs second : List ItemSig) (hf : cleanItems fs = true)
+    (hs : cleanItems second = true) : compareInherentItemsLoop fs second = .ok () ↔ InherentAccept fs second := by
+  rw [compareInherentItemsLoop_eq, inhResult_ok,
+    compareTraitItemsLoop_ok_iff _ _ (by rw [clean_strict]; exact hf) hs]
   constructor
   · rintro ⟨h1, h2, h3⟩
     refine ⟨fun f hf => h1 f.strict (List.mem_map.2 ⟨f, hf, rfl⟩) rfl, ?_,
@@ -533,21 +533,21 @@ theorem compareInherentItems_ok_iff (fs second : List ItemSig) (hf : cleanItems 
       obtain ⟨f, hf, rfl⟩ := List.mem_map.1 ht
       exact h3 f hf
 
-theorem compareInherentItems_missing (fs second : List ItemSig) (f : ItemSig) (hfs : cleanItems fs = true)
-    (hok : compareInherentItems fs second = .ok ()) (hf : f ∈ fs) :
-    compareInherentItems fs (dropItem f.kind f.ident second) = .error .notInOneImpl := by
-  rw [compareInherentItems_eq] at hok ⊢
-  have := compareTraitItems_missing (fs.map ItemSig.strict) second f.strict (by rw [clean_strict]; exact hfs)
+theorem compareInherentItemsLoop_missing (fs second : List ItemSig) (f : ItemSig) (hfs : cleanItems fs = true)
+    (hok : compareInherentItemsLoop fs second = .ok ()) (hf : f ∈ fs) :
+    compareInherentItemsLoop fs (dropItem f.kind f.ident second) = .error .notInOneImpl := by
+  rw [compareInherentItemsLoop_eq] at hok ⊢
+  have := compareTraitItemsLoop_missing (fs.map ItemSig.strict) second f.strict (by rw [clean_strict]; exact hfs)
     (inhResult_ok.1 hok) (List.mem_map.2 ⟨f, hf, rfl⟩) rfl
-  change compareTraitItems _ (dropItem f.kind f.ident second) = _ at this
+  change compareTraitItemsLoop _ (dropItem f.kind f.ident second) = _ at this
   rw [this]; rfl
 
-theorem compareInherentItems_extra (fs l1 l2 : List ItemSig) (x : ItemSig)
-    (hok : compareInherentItems fs (l1 ++ l2) = .ok ()) (hx : x.kind ≠ .other)
+theorem compareInherentItemsLoop_extra (fs l1 l2 : List ItemSig) (x : ItemSig)
+    (hok : compareInherentItemsLoop fs (l1 ++ l2) = .ok ()) (hx : x.kind ≠ .other)
     (hn : ∀ f ∈ fs, ¬ (f.kind = x.kind ∧ f.ident = x.ident)) :
-    compareInherentItems fs (l1 ++ x :: l2) = .error .notInOneImpl := by
-  rw [compareInherentItems_eq] at hok ⊢
-  rw [compareTraitItems_extra _ l1 l2 x (inhResult_ok.1 hok) hx (by
+    compareInherentItemsLoop fs (l1 ++ x :: l2) = .error .notInOneImpl := by
+  rw [compareInherentItemsLoop_eq] at hok ⊢
+  rw [compareTraitItemsLoop_extra _ l1 l2 x (inhResult_ok.1 hok) hx (by
     intro t ht
     obtain ⟨f, hf, rfl⟩ := List.mem_map.1 ht
     exact hn f hf)]
@@ -663,13 +663,13 @@ theorem traitHeader_ok_iff (trait_ item : T) :
 
 
 /-- changing the number of generic parameters of an associated const: `Doesn't match trait definition` -/
-theorem compareTraitItems_arity : ∀ (ts l1 l2 : List ItemSig) (s s' : ItemSig), cleanItems ts = true →
-    cleanItems (l1 ++ s :: l2) = true → compareTraitItems ts (l1 ++ s :: l2) = .ok () →
+theorem compareTraitItemsLoop_arity : ∀ (ts l1 l2 : List ItemSig) (s s' : ItemSig), cleanItems ts = true →
+    cleanItems (l1 ++ s :: l2) = true → compareTraitItemsLoop ts (l1 ++ s :: l2) = .ok () →
     s.kind = .const → s'.kind = s.kind → s'.ident = s.ident → s'.arity ≠ s.arity →
-    compareTraitItems ts (l1 ++ s' :: l2) = .error .noMatch
+    compareTraitItemsLoop ts (l1 ++ s' :: l2) = .error .noMatch
   | [], l1, l2, s, s', _, _, hok, _, _, _, _ => by
       have hno := ok_no_other _ _ hok
-      rw [compareTraitItems, if_neg (by simp [hno])] at hok
+      rw [compareTraitItemsLoop, if_neg (by simp [hno])] at hok
       by_cases he : (l1 ++ s :: l2).isEmpty = true
       · simp at he
       · rw [if_neg he] at hok; cases hok
@@ -683,8 +683,8 @@ theorem compareTraitItems_arity : ∀ (ts l1 l2 : List ItemSig) (s s' : ItemSig)
         · exact hno y (Or.inl hy)
         · rw [hy, hk', hsk]; decide
         · exact hno y (Or.inr (Or.inr hy))
-      rw [compareTraitItems, if_neg (by simp [hno])] at hok
-      rw [compareTraitItems, if_neg (by simp [hno'])]
+      rw [compareTraitItemsLoop, if_neg (by simp [hno])] at hok
+      rw [compareTraitItemsLoop, if_neg (by simp [hno'])]
       by_cases hto : t.kind = .other
       · rw [if_pos hto] at hok; cases hok
       rw [if_neg hto] at hok ⊢
@@ -709,7 +709,7 @@ theorem compareTraitItems_arity : ∀ (ts l1 l2 : List ItemSig) (s s' : ItemSig)
           simp only at hok ⊢
           by_cases hd : t.hasDefault = true
           · rw [if_pos hd] at hok ⊢
-            exact compareTraitItems_arity ts l1 l2 s s' hts' hcl hok hsk hk' hi' har'
+            exact compareTraitItemsLoop_arity ts l1 l2 s s' hts' hcl hok hsk hk' hi' har'
           · rw [if_neg hd] at hok; cases hok
         | some p =>
           obtain ⟨s0, rest⟩ := p
@@ -724,15 +724,15 @@ theorem compareTraitItems_arity : ∀ (ts l1 l2 : List ItemSig) (s s' : ItemSig)
             obtain ⟨m1, m2, hsplit, hrest, _, _⟩ := removeItem_some hrs
             have hcl' : cleanItems (l1' ++ s :: l2') = true := by
               rw [hrest]; rw [hsplit] at hcl; exact (clean_remove hcl).1
-            exact compareTraitItems_arity ts l1' l2' s s' hts' hcl' hok hsk hk' hi' har'
+            exact compareTraitItemsLoop_arity ts l1' l2' s s' hts' hcl' hok hsk hk' hi' har'
 
 
-theorem compareInherentItems_arity (fs l1 l2 : List ItemSig) (s s' : ItemSig) (hfs : cleanItems fs = true)
-    (hcl : cleanItems (l1 ++ s :: l2) = true) (hok : compareInherentItems fs (l1 ++ s :: l2) = .ok ())
+theorem compareInherentItemsLoop_arity (fs l1 l2 : List ItemSig) (s s' : ItemSig) (hfs : cleanItems fs = true)
+    (hcl : cleanItems (l1 ++ s :: l2) = true) (hok : compareInherentItemsLoop fs (l1 ++ s :: l2) = .ok ())
     (hsk : s.kind = .const) (hk' : s'.kind = s.kind) (hi' : s'.ident = s.ident) (har : s'.arity ≠ s.arity) :
-    compareInherentItems fs (l1 ++ s' :: l2) = .error .genericsMismatch := by
-  rw [compareInherentItems_eq] at hok ⊢
-  rw [compareTraitItems_arity _ l1 l2 s s' (by rw [clean_strict]; exact hfs) hcl (inhResult_ok.1 hok)
+    compareInherentItemsLoop fs (l1 ++ s' :: l2) = .error .genericsMismatch := by
+  rw [compareInherentItemsLoop_eq] at hok ⊢
+  rw [compareTraitItemsLoop_arity _ l1 l2 s s' (by rw [clean_strict]; exact hfs) hcl (inhResult_ok.1 hok)
     hsk hk' hi' har]
   rfl
 
@@ -798,5 +798,403 @@ theorem validateAll_eq (trait_ : Option T) (fams : List (List T)) :
   apply List.map_congr_left
   intro fam _
   cases trait_ <;> rfl
+
+/-! ### The look-up table `itemMap` (IndexMap semantics: a repeated name overwrites the value, keeps the first position) -/
+
+/-- the keys of the table are the keys of the block -/
+theorem itemMap_exists_iff (P : ItemKind → String → Prop) : ∀ (xs : List ItemSig),
+    (∃ s ∈ itemMap xs, P s.kind s.ident) ↔ (∃ s ∈ xs, P s.kind s.ident)
+  | [] => by simp [itemMap]
+  | i :: is => by
+      have ih := itemMap_exists_iff P is
+      rw [itemMap]
+      cases hr : removeItem i.kind i.ident (itemMap is) with
+      | none =>
+        simp only [List.mem_cons, exists_eq_or_imp, ih]
+      | some p =>
+        obtain ⟨j, rest⟩ := p
+        obtain ⟨l1, l2, h1, rfl, hj, _⟩ := removeItem_some hr
+        simp only
+        rw [h1] at ih
+        constructor
+        · rintro ⟨s, hs, hP⟩
+          rcases List.mem_cons.1 hs with e | hs
+          · exact ⟨i, by simp, by rw [← hj.1, ← hj.2, ← e]; exact hP⟩
+          · obtain ⟨s', hs', hP'⟩ := ih.1 ⟨s, by
+              simp only [List.mem_append, List.mem_cons] at hs ⊢
+              rcases hs with hs | hs
+              · exact Or.inl hs
+              · exact Or.inr (Or.inr hs), hP⟩
+            exact ⟨s', List.mem_cons_of_mem _ hs', hP'⟩
+        · rintro ⟨s, hs, hP⟩
+          rcases List.mem_cons.1 hs with e | hs
+          · exact ⟨j, by simp, by rw [hj.1, hj.2, ← e]; exact hP⟩
+          · obtain ⟨s', hs', hP'⟩ := ih.2 ⟨s, hs, hP⟩
+            refine ⟨s', ?_, hP'⟩
+            simp only [List.mem_append, List.mem_cons] at hs' ⊢
+            rcases hs' with h | h | h
+            · exact Or.inr (Or.inl h)
+            · exact Or.inl h
+            · exact Or.inr (Or.inr h)
+
+theorem itemMap_any_other (xs : List ItemSig) :
+    (itemMap xs).any (fun i => i.kind = .other) = xs.any (fun i => i.kind = .other) := by
+  have := itemMap_exists_iff (fun k _ => k = .other) xs
+  rw [Bool.eq_iff_iff]
+  simpa only [List.any_eq_true, decide_eq_true_eq] using this
+
+/-- no key occurs twice in the table -/
+theorem itemMap_nodup : ∀ (xs : List ItemSig), ((itemMap xs).map ItemSig.key).Nodup
+  | [] => by simp [itemMap]
+  | i :: is => by
+      have ih := itemMap_nodup is
+      rw [itemMap]
+      cases hr : removeItem i.kind i.ident (itemMap is) with
+      | none =>
+        simp only [List.map_cons, List.nodup_cons, List.mem_map, not_exists, not_and]
+        refine ⟨fun s hs hk => ?_, ih⟩
+        exact removeItem_none.1 hr s hs (key_eq_iff.1 hk)
+      | some p =>
+        obtain ⟨j, rest⟩ := p
+        obtain ⟨l1, l2, h1, rfl, _, _⟩ := removeItem_some hr
+        simp only
+        rw [h1] at ih
+        exact ((List.perm_middle (a := j) (l₁ := l1) (l₂ := l2)).map ItemSig.key).nodup_iff.1 ih
+
+/-- a block without repeated names is its own table: on such blocks nothing changed -/
+theorem itemMap_of_nodup : ∀ {xs : List ItemSig}, (xs.map ItemSig.key).Nodup → itemMap xs = xs
+  | [], _ => rfl
+  | i :: is, h => by
+      simp only [List.map_cons, List.nodup_cons, List.mem_map, not_exists, not_and] at h
+      rw [itemMap, itemMap_of_nodup h.2,
+        removeItem_none.2 (fun s hs hk => h.1 s hs (key_eq_iff.2 hk))]
+
+theorem itemMap_of_clean {xs : List ItemSig} (h : cleanItems xs = true) : itemMap xs = xs :=
+  itemMap_of_nodup (cleanItems_iff.1 h).2
+
+theorem clean_itemMap {xs : List ItemSig} (h : xs.any (fun i => i.kind = .other) = false) :
+    cleanItems (itemMap xs) = true := by
+  rw [cleanItems_iff]
+  refine ⟨?_, itemMap_nodup xs⟩
+  rw [← itemMap_any_other] at h
+  simpa only [List.any_eq_false, decide_eq_true_eq] using h
+
+theorem removeItem_dropItem {k k' : ItemKind} {x x' : String} (hne : ¬ (k' = k ∧ x' = x)) (m : List ItemSig) :
+    removeItem k' x' (dropItem k x m) = (removeItem k' x' m).map (fun p => (p.1, dropItem k x p.2)) := by
+  cases hr : removeItem k' x' m with
+  | none =>
+    exact removeItem_none.2 (fun s hs => removeItem_none.1 hr s (mem_dropItem.1 hs).1)
+  | some p =>
+    obtain ⟨s, rest⟩ := p
+    obtain ⟨l1, l2, rfl, rfl, hst, hl1⟩ := removeItem_some hr
+    have hs' : ¬ s.is k x := fun h => hne ⟨hst.1.symm.trans h.1, hst.2.symm.trans h.2⟩
+    rw [dropItem_append, dropItem_cons_ne hs', Option.map_some, dropItem_append]
+    exact removeItem_split _ _ hst (fun y hy => hl1 y (mem_dropItem.1 hy).1)
+
+theorem dropItem_cons_eq {k : ItemKind} {x : String} {s : ItemSig} (h : s.is k x) (l : List ItemSig) :
+    dropItem k x (s :: l) = dropItem k x l := by
+  simp only [dropItem]; rw [List.filter_cons_of_neg (by rw [decide_eq_true_eq]; exact fun hn => hn h)]
+
+/-- removing a name from the block removes its entry from the table -/
+theorem itemMap_dropItem (k : ItemKind) (x : String) : ∀ (xs : List ItemSig),
+    itemMap (dropItem k x xs) = dropItem k x (itemMap xs)
+  | [] => rfl
+  | i :: is => by
+      have ih := itemMap_dropItem k x is
+      by_cases hi : i.is k x
+      · rw [dropItem_cons_eq hi, ih, itemMap]
+        cases hr : removeItem i.kind i.ident (itemMap is) with
+        | none => simp only; rw [dropItem_cons_eq hi]
+        | some p =>
+          obtain ⟨j, rest⟩ := p
+          obtain ⟨l1, l2, h1, rfl, hj, _⟩ := removeItem_some hr
+          have hjk : j.is k x := ⟨hj.1.trans hi.1, hj.2.trans hi.2⟩
+          simp only
+          rw [h1, dropItem_cons_eq hjk, dropItem_append, dropItem_cons_eq hjk, dropItem_append]
+      · rw [dropItem_cons_ne hi, itemMap, ih, removeItem_dropItem (fun h => hi ⟨h.1, h.2⟩), itemMap]
+        cases hr : removeItem i.kind i.ident (itemMap is) with
+        | none => simp only [Option.map_none]; rw [dropItem_cons_ne hi]
+        | some p =>
+          obtain ⟨j, rest⟩ := p
+          obtain ⟨_, _, _, _, hj, _⟩ := removeItem_some hr
+          have hjk : ¬ j.is k x := fun h => hi ⟨hj.1.symm.trans h.1, hj.2.symm.trans h.2⟩
+          simp only [Option.map_some]
+          rw [dropItem_cons_ne hjk]
+
+/-- an item with a new name, inserted anywhere into the block, is inserted into the table -/
+theorem itemMap_insert {x : ItemSig} : ∀ (l1 l2 : List ItemSig), (∀ y ∈ l1 ++ l2, ¬ y.is x.kind x.ident) →
+    ∃ l1' l2', itemMap (l1 ++ l2) = l1' ++ l2' ∧ itemMap (l1 ++ x :: l2) = l1' ++ x :: l2'
+  | [], l2, h => by
+      refine ⟨[], itemMap l2, rfl, ?_⟩
+      simp only [List.nil_append] at h ⊢
+      rw [itemMap, removeItem_none.2]
+      intro s hs hsx
+      obtain ⟨s', hs', hP⟩ := (itemMap_exists_iff (fun k n => k = x.kind ∧ n = x.ident) l2).1 ⟨s, hs, hsx⟩
+      exact h s' hs' hP
+  | i :: l1, l2, h => by
+      obtain ⟨l1', l2', e1, e2⟩ := itemMap_insert l1 l2 (fun y hy => h y (List.mem_cons_of_mem _ hy))
+      have hx : ¬ x.is i.kind i.ident := fun hxi => h i (by simp) ⟨hxi.1.symm, hxi.2.symm⟩
+      rw [List.cons_append, List.cons_append, itemMap, itemMap, e1, e2]
+      cases hr : removeItem i.kind i.ident (l1' ++ l2') with
+      | none =>
+        rw [removeItem_insert_none hx l1' l2' hr]
+        exact ⟨i :: l1', l2', rfl, rfl⟩
+      | some p =>
+        obtain ⟨j, rest⟩ := p
+        obtain ⟨m1, m2, rfl, h'⟩ := removeItem_insert_some l1' l2' j rest hr
+        rw [h' x hx]
+        exact ⟨j :: m1, m2, rfl, rfl⟩
+
+/-! ### `itemMap` is the table the code builds: `IndexMap::insert` for every item of the block, from the left -/
+
+/-- `IndexMap::insert`: the value of a key that is present is overwritten in place, a new key is appended -/
+def insertItem : List ItemSig → ItemSig → List ItemSig
+  | [], i => [i]
+  | j :: m, i => if j.kind = i.kind ∧ j.ident = i.ident then i :: m else j :: insertItem m i
+
+theorem removeItem_insertItem_ne {k : ItemKind} {x : String} {z : ItemSig} (hz : ¬ z.is k x) : ∀ (m : List ItemSig),
+    removeItem k x (insertItem m z) = (removeItem k x m).map (fun p => (p.1, insertItem p.2 z))
+  | [] => by simp only [insertItem, removeItem, if_neg hz, Option.map_none]
+  | j :: m => by
+      rw [insertItem]
+      by_cases hjz : j.kind = z.kind ∧ j.ident = z.ident
+      · have hj : ¬ (j.kind = k ∧ j.ident = x) := fun h => hz ⟨hjz.1.symm.trans h.1, hjz.2.symm.trans h.2⟩
+        rw [if_pos hjz, removeItem, if_neg hz, removeItem, if_neg hj]
+        cases removeItem k x m with
+        | none => rfl
+        | some p => simp only [Option.map_some, insertItem, if_pos hjz]
+      · rw [if_neg hjz, removeItem, removeItem]
+        by_cases hj : j.kind = k ∧ j.ident = x
+        · rw [if_pos hj, if_pos hj]; rfl
+        · rw [if_neg hj, if_neg hj, removeItem_insertItem_ne hz m]
+          cases removeItem k x m with
+          | none => rfl
+          | some p => simp only [Option.map_some, insertItem, if_neg hjz]
+
+theorem removeItem_insertItem_eq {k : ItemKind} {x : String} {z : ItemSig} (hz : z.is k x) : ∀ (m : List ItemSig),
+    removeItem k x (insertItem m z) = some (z, match removeItem k x m with | some p => p.2 | none => m)
+  | [] => by simp only [insertItem, removeItem, if_pos hz]
+  | j :: m => by
+      rw [insertItem]
+      by_cases hjz : j.kind = z.kind ∧ j.ident = z.ident
+      · have hj : j.kind = k ∧ j.ident = x := ⟨hjz.1.trans hz.1, hjz.2.trans hz.2⟩
+        rw [if_pos hjz, removeItem, if_pos hz, removeItem, if_pos hj]
+      · have hj : ¬ (j.kind = k ∧ j.ident = x) := fun h => hjz ⟨h.1.trans hz.1.symm, h.2.trans hz.2.symm⟩
+        rw [if_neg hjz, removeItem, if_neg hj, removeItem_insertItem_eq hz m, removeItem, if_neg hj]
+        cases removeItem k x m with
+        | none => rfl
+        | some p => rfl
+
+theorem itemMap_snoc (z : ItemSig) : ∀ (ys : List ItemSig), itemMap (ys ++ [z]) = insertItem (itemMap ys) z
+  | [] => by simp [itemMap, removeItem, insertItem]
+  | i :: ys => by
+      rw [List.cons_append, itemMap, itemMap_snoc z ys, itemMap]
+      by_cases hz : z.is i.kind i.ident
+      · rw [removeItem_insertItem_eq hz]
+        cases hr : removeItem i.kind i.ident (itemMap ys) with
+        | none => simp only [insertItem, if_pos (show i.kind = z.kind ∧ i.ident = z.ident from ⟨hz.1.symm, hz.2.symm⟩)]
+        | some p =>
+          obtain ⟨j, rest⟩ := p
+          obtain ⟨_, _, _, _, hj, _⟩ := removeItem_some hr
+          simp only [insertItem, if_pos (show j.kind = z.kind ∧ j.ident = z.ident from
+            ⟨hj.1.trans hz.1.symm, hj.2.trans hz.2.symm⟩)]
+      · rw [removeItem_insertItem_ne hz]
+        cases hr : removeItem i.kind i.ident (itemMap ys) with
+        | none =>
+          simp only [Option.map_none, insertItem,
+            if_neg (show ¬ (i.kind = z.kind ∧ i.ident = z.ident) from fun h => hz ⟨h.1.symm, h.2.symm⟩)]
+        | some p =>
+          obtain ⟨j, rest⟩ := p
+          obtain ⟨_, _, _, _, hj, _⟩ := removeItem_some hr
+          simp only [Option.map_some, insertItem, if_neg (show ¬ (j.kind = z.kind ∧ j.ident = z.ident) from
+            fun h => hz ⟨h.1.symm.trans hj.1, h.2.symm.trans hj.2⟩)]
+
+theorem foldl_insertItem_itemMap : ∀ (xs ys : List ItemSig),
+    xs.foldl insertItem (itemMap ys) = itemMap (ys ++ xs)
+  | [], ys => by simp
+  | z :: xs, ys => by
+      rw [List.foldl_cons, ← itemMap_snoc, foldl_insertItem_itemMap xs (ys ++ [z]), List.append_assoc]
+      rfl
+
+/-- the structural `itemMap` of the model IS the loop of the code: every item of the block, from the left, entered
+    with `IndexMap::insert` into an empty table (same entries, same order) -/
+theorem itemMap_eq_foldl_insert (xs : List ItemSig) : itemMap xs = xs.foldl insertItem [] := by
+  have := foldl_insertItem_itemMap xs []
+  simpa [itemMap] using this.symm
+
+/-! ### `compare_trait_items` / `compare_inherent_items` on the block (table built first) -/
+
+theorem compareTraitItems_def (ts second : List ItemSig) :
+    compareTraitItems ts second = compareTraitItemsLoop ts (itemMap second) := rfl
+
+theorem compareInherentItems_def (fs second : List ItemSig) :
+    compareInherentItems fs second = compareInherentItemsLoop fs (itemMap second) := rfl
+
+/-- on a block without repeated names the table is the block -/
+theorem compareTraitItems_of_nodup (ts : List ItemSig) {second : List ItemSig} (h : (second.map ItemSig.key).Nodup) :
+    compareTraitItems ts second = compareTraitItemsLoop ts second := by
+  rw [compareTraitItems_def, itemMap_of_nodup h]
+
+theorem compareInherentItems_of_nodup (fs : List ItemSig) {second : List ItemSig} (h : (second.map ItemSig.key).Nodup) :
+    compareInherentItems fs second = compareInherentItemsLoop fs second := by
+  rw [compareInherentItems_def, itemMap_of_nodup h]
+
+/-- an accepted run: every entry of the table was asked for by a trait item -/
+theorem compareTraitItemsLoop_ok_covered : ∀ (ts second : List ItemSig), compareTraitItemsLoop ts second = .ok () →
+    ∀ s ∈ second, ∃ t ∈ ts, t.kind = s.kind ∧ t.ident = s.ident
+  | [], second, hok, s, hs => by
+      rw [compareTraitItemsLoop] at hok
+      split at hok
+      · cases hok
+      · split at hok
+        · rename_i he; simp only [List.isEmpty_iff] at he; subst he; cases hs
+        · cases hok
+  | t :: ts, second, hok, s, hs => by
+      rw [compareTraitItemsLoop] at hok
+      split at hok
+      · cases hok
+      split at hok
+      · cases hok
+      cases hr : removeItem t.kind t.ident second with
+      | none =>
+        rw [hr] at hok
+        simp only at hok
+        split at hok
+        · obtain ⟨t', ht', hm⟩ := compareTraitItemsLoop_ok_covered ts second hok s hs
+          exact ⟨t', List.mem_cons_of_mem _ ht', hm⟩
+        · cases hok
+      | some p =>
+        obtain ⟨s0, rest⟩ := p
+        rw [hr] at hok
+        simp only at hok
+        split at hok
+        · cases hok
+        · obtain ⟨l1, l2, rfl, rfl, hst, _⟩ := removeItem_some hr
+          simp only [List.mem_append, List.mem_cons] at hs
+          have hcov := compareTraitItemsLoop_ok_covered ts (l1 ++ l2) hok
+          rcases hs with hs | hs | hs
+          · obtain ⟨t', ht', hm⟩ := hcov s (List.mem_append.2 (Or.inl hs))
+            exact ⟨t', List.mem_cons_of_mem _ ht', hm⟩
+          · exact ⟨t, by simp, by rw [hs]; exact ⟨hst.1.symm, hst.2.symm⟩⟩
+          · obtain ⟨t', ht', hm⟩ := hcov s (List.mem_append.2 (Or.inr hs))
+            exact ⟨t', List.mem_cons_of_mem _ ht', hm⟩
+
+/-- acceptance in general (repeated names allowed in the block): the characterisation speaks about the TABLE, i.e. about
+    the last item of every name -/
+theorem compareTraitItems_ok_iff_map (ts second : List ItemSig) (hts : cleanItems ts = true) :
+    compareTraitItems ts second = .ok () ↔ TraitAccept ts (itemMap second) := by
+  rw [compareTraitItems_def]
+  by_cases ho : second.any (fun i => i.kind = .other) = true
+  · constructor
+    · intro h
+      have := ok_no_other _ _ h
+      rw [itemMap_any_other, ho] at this; cases this
+    · intro h
+      exfalso
+      rw [← itemMap_any_other] at ho
+      obtain ⟨s, hs, hk⟩ := List.any_eq_true.1 ho
+      obtain ⟨t, ht, hm⟩ := h.2.1 s hs
+      exact (cleanItems_iff.1 hts).1 t ht (hm.1.trans (by simpa using hk))
+  · exact compareTraitItemsLoop_ok_iff ts _ hts (clean_itemMap (by simpa using ho))
+
+theorem compareTraitItems_ok_iff (ts second : List ItemSig) (hts : cleanItems ts = true)
+    (hs : cleanItems second = true) : compareTraitItems ts second = .ok () ↔ TraitAccept ts second := by
+  rw [compareTraitItems_def, itemMap_of_clean hs]
+  exact compareTraitItemsLoop_ok_iff ts second hts hs
+
+theorem compareTraitItems_ok_no_other {ts second : List ItemSig} (h : compareTraitItems ts second = .ok ()) :
+    second.any (fun i => i.kind = .other) = false := by
+  rw [← itemMap_any_other]; exact ok_no_other _ _ h
+
+/-- omitting (every copy of) an item that has a trait default keeps the impl accepted; no condition on the block -/
+theorem compareTraitItems_default_omitted (ts second : List ItemSig) (t : ItemSig) (hts : cleanItems ts = true)
+    (hok : compareTraitItems ts second = .ok ()) (ht : t ∈ ts)
+    (hd : t.hasDefault = true) : compareTraitItems ts (dropItem t.kind t.ident second) = .ok () := by
+  rw [compareTraitItems_def, itemMap_dropItem]
+  exact compareTraitItemsLoop_default_omitted ts _ t hts (clean_itemMap (compareTraitItems_ok_no_other hok)) hok ht hd
+
+theorem compareTraitItems_missing (ts second : List ItemSig) (t : ItemSig) (hts : cleanItems ts = true)
+    (hok : compareTraitItems ts second = .ok ()) (ht : t ∈ ts) (hd : t.hasDefault = false) :
+    compareTraitItems ts (dropItem t.kind t.ident second) = .error .missing := by
+  rw [compareTraitItems_def, itemMap_dropItem]
+  exact compareTraitItemsLoop_missing ts _ t hts hok ht hd
+
+theorem compareTraitItems_extra (ts l1 l2 : List ItemSig) (x : ItemSig)
+    (hok : compareTraitItems ts (l1 ++ l2) = .ok ()) (hxo : x.kind ≠ .other)
+    (hn : ∀ t ∈ ts, ¬ (t.kind = x.kind ∧ t.ident = x.ident)) :
+    compareTraitItems ts (l1 ++ x :: l2) = .error .notInTrait := by
+  rw [compareTraitItems_def] at hok ⊢
+  have hfresh : ∀ y ∈ l1 ++ l2, ¬ y.is x.kind x.ident := by
+    intro y hy hyx
+    obtain ⟨s, hs, hP⟩ := (itemMap_exists_iff (fun k n => k = x.kind ∧ n = x.ident) (l1 ++ l2)).2 ⟨y, hy, hyx⟩
+    obtain ⟨t, ht, hm⟩ := compareTraitItemsLoop_ok_covered ts _ hok s hs
+    exact hn t ht ⟨hm.1.trans hP.1, hm.2.trans hP.2⟩
+  obtain ⟨l1', l2', e1, e2⟩ := itemMap_insert l1 l2 hfresh
+  rw [e1] at hok
+  rw [e2]
+  exact compareTraitItemsLoop_extra ts l1' l2' x hok hxo hn
+
+theorem compareTraitItems_arity (ts l1 l2 : List ItemSig) (s s' : ItemSig) (hts : cleanItems ts = true)
+    (hcl : cleanItems (l1 ++ s :: l2) = true) (hok : compareTraitItems ts (l1 ++ s :: l2) = .ok ())
+    (hsk : s.kind = .const) (hk' : s'.kind = s.kind) (hi' : s'.ident = s.ident) (har' : s'.arity ≠ s.arity) :
+    compareTraitItems ts (l1 ++ s' :: l2) = .error .noMatch := by
+  have hnd := (cleanItems_iff.1 hcl).2
+  have hkeys : (l1 ++ s' :: l2).map ItemSig.key = (l1 ++ s :: l2).map ItemSig.key := by
+    simp only [List.map_append, List.map_cons, key_eq_iff.2 ⟨hk', hi'⟩]
+  rw [compareTraitItems_of_nodup ts hnd] at hok
+  rw [compareTraitItems_of_nodup ts (by rw [hkeys]; exact hnd)]
+  exact compareTraitItemsLoop_arity ts l1 l2 s s' hts hcl hok hsk hk' hi' har'
+
+theorem compareInherentItems_eq (fs second : List ItemSig) :
+    compareInherentItems fs second = inhResult (compareTraitItems (fs.map ItemSig.strict) second) :=
+  compareInherentItemsLoop_eq fs (itemMap second)
+
+theorem compareInherentItems_ok_iff_map (fs second : List ItemSig) (hf : cleanItems fs = true) :
+    compareInherentItems fs second = .ok () ↔ InherentAccept fs (itemMap second) := by
+  rw [compareInherentItems_def]
+  by_cases ho : second.any (fun i => i.kind = .other) = true
+  · constructor
+    · intro h
+      rw [compareInherentItemsLoop_eq, inhResult_ok] at h
+      have := ok_no_other _ _ h
+      rw [itemMap_any_other, ho] at this; cases this
+    · intro h
+      exfalso
+      rw [← itemMap_any_other] at ho
+      obtain ⟨s, hs, hk⟩ := List.any_eq_true.1 ho
+      obtain ⟨t, ht, hm⟩ := h.2.1 s hs
+      exact (cleanItems_iff.1 hf).1 t ht (hm.1.trans (by simpa using hk))
+  · exact compareInherentItemsLoop_ok_iff fs _ hf (clean_itemMap (by simpa using ho))
+
+theorem compareInherentItems_ok_iff (fs second : List ItemSig) (hf : cleanItems fs = true)
+    (hs : cleanItems second = true) : compareInherentItems fs second = .ok () ↔ InherentAccept fs second := by
+  rw [compareInherentItems_def, itemMap_of_clean hs]
+  exact compareInherentItemsLoop_ok_iff fs second hf hs
+
+theorem compareInherentItems_missing (fs second : List ItemSig) (f : ItemSig) (hfs : cleanItems fs = true)
+    (hok : compareInherentItems fs second = .ok ()) (hf : f ∈ fs) :
+    compareInherentItems fs (dropItem f.kind f.ident second) = .error .notInOneImpl := by
+  rw [compareInherentItems_def, itemMap_dropItem]
+  exact compareInherentItemsLoop_missing fs _ f hfs hok hf
+
+theorem compareInherentItems_extra (fs l1 l2 : List ItemSig) (x : ItemSig)
+    (hok : compareInherentItems fs (l1 ++ l2) = .ok ()) (hx : x.kind ≠ .other)
+    (hn : ∀ f ∈ fs, ¬ (f.kind = x.kind ∧ f.ident = x.ident)) :
+    compareInherentItems fs (l1 ++ x :: l2) = .error .notInOneImpl := by
+  rw [compareInherentItems_eq] at hok ⊢
+  rw [compareTraitItems_extra _ l1 l2 x (inhResult_ok.1 hok) hx (by
+    intro t ht
+    obtain ⟨f, hf, rfl⟩ := List.mem_map.1 ht
+    exact hn f hf)]
+  rfl
+
+theorem compareInherentItems_arity (fs l1 l2 : List ItemSig) (s s' : ItemSig) (hfs : cleanItems fs = true)
+    (hcl : cleanItems (l1 ++ s :: l2) = true) (hok : compareInherentItems fs (l1 ++ s :: l2) = .ok ())
+    (hsk : s.kind = .const) (hk' : s'.kind = s.kind) (hi' : s'.ident = s.ident) (har : s'.arity ≠ s.arity) :
+    compareInherentItems fs (l1 ++ s' :: l2) = .error .genericsMismatch := by
+  rw [compareInherentItems_eq] at hok ⊢
+  rw [compareTraitItems_arity _ l1 l2 s s' (by rw [clean_strict]; exact hfs) hcl (inhResult_ok.1 hok)
+    hsk hk' hi' har]
+  rfl
 
 end DI
